@@ -117,6 +117,9 @@ def run(prog, chk):
         for n in SX.walk(f.body, into_lambdas=False):
             if n['k'] in ('forrange', 'for'):
                 reads = [x for x in SX.walk(n['body'], into_lambdas=False) if x['k'] == 'member' and x['name'] in LAYOUT and _through_base(x)]
+                if not reads:
+                    # the copy from ->base may sit in a helper the loop body calls (populateClassMembers(rc, decl, …))
+                    reads = _callee_base_reads(prog, n['body'], LAYOUT, {f_.key for f_ in evfns})
                 if reads and not any(o is not n and any(y is n for y in SX.walk(o['body'], into_lambdas=False)) and o['k'] in ('forrange', 'for')
                                      for o in loops):
                     # outermost loop whose body copies from ->base
@@ -457,3 +460,20 @@ def _snapshot_sorted(prog, f, ref, loop):
     if fills_decl and not fills_hash:
         return False, 'its order derives from the top-level declaration order, so user code (e.g. static initialisers of classes instantiated here) runs in declaration order'
     return False, 'snapshot of a hash container used without sorting'
+
+
+def _callee_base_reads(prog, body, layout, evkeys, depth=0, seen=None):
+    """layout members read through ->base in evaluator methods called (transitively, depth ≤ 3) from `body`"""
+    seen = seen if seen is not None else set()
+    out = []
+    for c in SX.walk(body, into_lambdas=False):
+        if c['k'] not in ('mcall', 'call'):
+            continue
+        for t in prog.resolve(c):
+            if t.key in seen or t.key not in evkeys or not t.body:
+                continue
+            seen.add(t.key)
+            out += [x for x in SX.walk(t.body, into_lambdas=False) if x['k'] == 'member' and x['name'] in layout and _through_base(x)]
+            if depth < 3 and not out:
+                out += _callee_base_reads(prog, t.body, layout, evkeys, depth + 1, seen)
+    return out
